@@ -423,6 +423,16 @@ func (c *Ctx) forwardedIDs() {
 	c.R.Count("forwarders of foreign PUBLISH packets", len(fwd))
 	c.R.Floor("forwarders of foreign PUBLISH packets (onpub closure, retained loop)", len(fwd), 2)
 	pub := c.P.Func("service", "service", "publish")
+	// the sender is handed messages it does not own: the fan-out passes one message object to the forwarders of all
+	// matching connections, the retained store hands the stored object to every subscriber. A sender that changes
+	// the message it is handed (numbers it from a per-connection sequence, say) changes it for the other connections
+	// too: the identifier one connection chose travels to the next, whose own sequence has not moved
+	if pub != nil && len(pub.Params) > 1 {
+		m := mutatesPublishParam(pub, pub.Params[1], 2)
+		c.R.Check(m == "", ruleP9, "service.publish:leaves-the-handed-message-unchanged", c.P.Pos(pub.Pos()),
+			"the sender calls no mutator on the message it is handed (also not through an interface or a helper)",
+			"the sender changes the message it is handed ("+m+"): that object is shared - the fan-out hands the same PUBLISH to the forwarder of every matching connection, the retained store to every subscriber - so an identifier (or flag) chosen for one connection reaches the others, where it can equal the identifier of a packet still in flight")
+	}
 	for _, fn := range fwd {
 		g := paths.New(c.P, fn, 0)
 		sendM := mAny(mCallee(pub), mAnd(mCallee(r.RingWrite), mArgDyn(1, "PublishMessage")))
